@@ -149,7 +149,11 @@ def make_fn(args, kind="num", name="xvfn", version=0, defaults=None,
     if delay:
         # (argument, value, seconds): that setting is slow, so that a real
         # pool completes tasks out of submission order
-        pre = "    if %s == %r:\n        import time\n        time.sleep(%r)\n" % delay
+        arg, val, secs = delay
+        test = ("%s in %r" % (arg, tuple(val)) if isinstance(val, (list, tuple))
+                else "%s == %r" % (arg, val))
+        pre = "    if %s:\n        import time\n        time.sleep(%r)\n" % (
+            test, secs)
     src = "def {name}({sig}):\n{pre}    return _xv_call({name!r}, {kind!r}, {version!r}, dict({kws}))\n".format(
         name=name, sig=", ".join(parts), kind=kind, version=version, pre=pre,
         kws=", ".join("%s=%s" % (a, a) for a in args),
